@@ -24,7 +24,7 @@ Abstractions (all checked by the correspondence run, stated in the props files):
   the tag/offset (`DynamicStorage(off)`, `TinyBuf(off)`, `None`) for the padding-destination
   logic and the capacity panic sites (`tiny_buf_` is 16 bytes, `storage_` is `storageSize`);
 * ring buffer CONTENT is not modelled, its indices, allocation length and every slice bound of
-  the write path are; the two bytes the catable prelude reads are the ghost `first2`;
+  the write path are; the (up to three) bytes the catable prelude reads are the ghost `first2`;
 * allocator traffic, hasher, commands, dist cache, prev bytes: payload, not here.
 `usize = u64`; `wrapping_*` are explicit `% 2^64` / `% 2^32`.
 -/
@@ -155,9 +155,10 @@ structure St where
   isInitialized : Bool := false
   isFirstMb : IsFirst := .nothing
   ring : Ring := {}
-  first2 : Bytes := []           -- ghost: input bytes at positions 0 and 1
+  first2 : Bytes := []           -- ghost: input bytes at positions 0, 1, 2 (a prelude resumed at position 1 stores 2 more)
   nEnc : Nat := 0                -- ghost: payload-encoder invocations so far
-  oracleBad : Bool := false      -- ghost: an oracle answer contradicted the skeleton
+  oracleBad : Bool := false      -- ghost: an oracle answer contradicted the skeleton (result / emit / length)
+  prefixBad : Bool := false      -- ghost: an oracle answer does not start with the bits the skeleton predicts
 deriving Repr, DecidableEq, Inhabited
 
 def St.availableOut (s : St) : Nat := s.pending.length
@@ -267,7 +268,7 @@ def copyInputToRingBuffer (s : St) (chunk : Bytes) (avail : Nat) : Out St :=
   | .ok rb =>
     if rb.pos ≤ rb.mask ∧ 2 + rb.pos + 7 > rb.allocLen then .panic     -- zeroing of the 7 look-ahead bytes
     else
-      let f2 := if s.first2.length < 2 ∧ s.inputPos < 2 then (s.first2 ++ chunk).take 2 else s.first2
+      let f2 := if s.first2.length < 3 ∧ s.inputPos < 3 then (s.first2 ++ chunk).take 3 else s.first2
       .ok { s with ring := rb, inputPos := (s.inputPos + chunk.length) % two64, first2 := f2 }
   | .panic => .panic
   | .fuel => .fuel
@@ -345,77 +346,97 @@ def isPrefixOf' : List Bool → List Bool → Bool
   | _ :: _, [] => false
   | a :: as, b :: bs => a == b && isPrefixOf' as bs
 
-/-- `encode_data(is_last, force_flush)` from call site `site`; returns the state, the
-function result, and the request it issued -/
-def encodeData (o : Oracle) (s : St) (site : Nat) (isLast forceFlush : Bool) : Out (St × Bool × Req) :=
-  let delta := s.unprocessed
-  let bytes := delta % two32
-  let req : Req := { site := site, lo := s.lastProcessedPos, hi := s.inputPos, isLast := isLast, forceFlush := forceFlush }
-  let ans := o s.nEnc req
-  let s := { s with nEnc := s.nEnc + 1 }
-  if s.isLastBlockEmitted then .ok ({ s with oracleBad := s.oracleBad || ans.result }, false, req)
-  else
-  let s := if isLast then { s with isLastBlockEmitted := true } else s
-  if delta > s.blockSize then .ok ({ s with oracleBad := s.oracleBad || ans.result }, false, req)
-  else
-  let metaSize := max bytes (wsub64 s.inputPos s.lastFlushPos)
-  let want := (2 * metaSize + 527) % two64
-  let s := if s.storageSize < want then { s with storageSize := want } else s
-  if s.storageSize < 2 then .panic else
-  let w0 : Writer := bitsOf s.lastBytesBits s.lastBytes
-  -- magic-number block
-  let (s, w, hdr) :=
-    if s.isFirstMb = .nothing ∧ s.params.magic then
-      let w := magicBlock s.params w0
-      let (lb, lbb) := carryOf w
-      ({ s with lastBytes := lb, lastBytesBits := lbb, nextOut := .dyn 0, isFirstMb := .header }, w, w.length / 8)
-    else (s, w0, 0)
-  -- catable prelude
-  let pre : Out (St × Writer × Nat × Nat) :=
-    if s.isFirstMb = .bothCatable then .ok (s, w, hdr, bytes)
-    else if !s.params.catable then .ok ({ s with isFirstMb := .bothCatable }, w, hdr, bytes)
-    else if bytes ≠ 0 then
-      if ¬ (s.lastProcessedPos < 2) then .panic     -- assert!(last_processed_pos_ < 2 || custom_dictionary)
-      else
-        let n := min 2 bytes
-        let data := (s.first2.drop s.lastFlushPos).take n
-        if data.length < n then .panic else           -- ghost bytes missing: outside the abstraction
-        let w := storedBlock data w
-        let (lb, lbb) := carryOf w
-        let fm := if n ≥ 2 then IsFirst.bothCatable
-                  else if s.isFirstMb = .firstCatable then IsFirst.bothCatable else IsFirst.firstCatable
-        .ok ({ s with lastBytes := lb, lastBytesBits := lbb, lastFlushPos := s.lastFlushPos + n,
-                      lastProcessedPos := s.lastProcessedPos + n, isFirstMb := fm, nextOut := .dyn 0 },
-             w, w.length / 8, bytes - n)
-    else .ok (s, w, hdr, bytes)
-  match pre with
-  | .panic => .panic
-  | .fuel => .fuel
-  | .ok (s, w, hdr, _bytes) =>
+/-- `encode_data`, part 1: the magic-number metadata block (first invocation only).
+Returns the state, the storage bit string so far and `catable_header_size`. -/
+def encMagic (s : St) (w0 : Writer) : St × Writer × Nat :=
+  if s.isFirstMb = .nothing ∧ s.params.magic then
+    let w := magicBlock s.params w0
+    ({ s with lastBytes := (carryOf w).1, lastBytesBits := (carryOf w).2, nextOut := .dyn 0, isFirstMb := .header }, w, w.length / 8)
+  else (s, w0, 0)
+
+/-- `encode_data`, part 2: the catable prelude (first two bytes stored uncompressed) -/
+def encPrelude (s : St) (w : Writer) (hdr bytes : Nat) : Out (St × Writer × Nat) :=
+  if s.isFirstMb = .bothCatable then .ok (s, w, hdr)
+  else if !s.params.catable then .ok ({ s with isFirstMb := .bothCatable }, w, hdr)
+  else if bytes ≠ 0 then
+    if ¬ (s.lastProcessedPos < 2) then .panic     -- assert!(last_processed_pos_ < 2 || custom_dictionary)
+    else
+      let n := min 2 bytes
+      let data := (s.first2.drop s.lastFlushPos).take n
+      if data.length < n then .panic else           -- ghost bytes missing: outside the abstraction
+      let w := storedBlock data w
+      let fm := if n ≥ 2 then IsFirst.bothCatable
+                else if s.isFirstMb = .firstCatable then IsFirst.bothCatable else IsFirst.firstCatable
+      .ok ({ s with lastBytes := (carryOf w).1, lastBytesBits := (carryOf w).2, lastFlushPos := s.lastFlushPos + n,
+                    lastProcessedPos := s.lastProcessedPos + n, isFirstMb := fm, nextOut := .dyn 0 },
+           w, w.length / 8)
+  else .ok (s, w, hdr)
+
+/-- `encode_data`, part 3: what the payload encoder appended and which positions move.
+`w0` = the carry, `w` = carry ++ what parts 1/2 wrote, `hdr` = `catable_header_size`. -/
+def encPayload (s : St) (ans : Ans) (w0 w : Writer) (hdr : Nat) (isLast forceFlush : Bool) : Out (St × Bool) :=
   let predicted := w.drop w0.length           -- what the skeleton itself appended behind the carry
-  let good := isPrefixOf' predicted ans.bits && ans.result
-  let wFull : Writer := if good then w0 ++ ans.bits else w
-  let delta := s.unprocessed
+  let good := decide (predicted.length ≤ ans.bits.length) && ans.result
+  let exact := decide (ans.bits.length = predicted.length)
+  let s : St := { s with prefixBad := (s.prefixBad || !isPrefixOf' predicted ans.bits) }
+  -- the skeleton's own bits, then whatever the payload encoder appended
+  let wFull : Writer := w ++ ans.bits.drop predicted.length
   let headerOnly : St := { s with pending := (wholeBytes w).take hdr }
-  if s.params.quality = 0 ∨ s.params.quality = 1 then
-    if delta = 0 ∧ !isLast then
-      .ok ({ headerOnly with oracleBad := s.oracleBad || !good || decide (ans.bits.length ≠ predicted.length) }, true, req)
+  if w.length / 8 + 2 > s.storageSize then .panic      -- `storage[1 + (storage_ix >> 3)]` after the magic block / prelude
+  else if s.params.quality = 0 ∨ s.params.quality = 1 then
+    if s.unprocessed = 0 ∧ !isLast then
+      .ok ({ headerOnly with oracleBad := (s.oracleBad || !good || !exact) }, true)
     else
       if wFull.length / 8 + 2 > s.storageSize then .panic else
-      let (lb, lbb) := carryOf wFull
-      .ok ({ s with lastBytes := lb, lastBytesBits := lbb, lastProcessedPos := s.inputPos, lastFlushPos := s.inputPos,
-                    nextOut := .dyn 0, pending := wholeBytes wFull, oracleBad := s.oracleBad || !good }, true, req)
+      .ok ({ s with lastBytes := (carryOf wFull).1, lastBytesBits := (carryOf wFull).2, lastProcessedPos := s.inputPos, lastFlushPos := s.inputPos, nextOut := .dyn 0, pending := wholeBytes wFull, oracleBad := (s.oracleBad || !good) }, true)
   else
     if !isLast ∧ !forceFlush ∧ !ans.emit then
       -- keep accumulating this meta-block
-      .ok ({ headerOnly with lastProcessedPos := s.inputPos, oracleBad := s.oracleBad || !good || decide (ans.bits.length ≠ predicted.length) }, true, req)
+      .ok ({ headerOnly with lastProcessedPos := s.inputPos, oracleBad := (s.oracleBad || !good || !exact) }, true)
     else if !isLast ∧ s.inputPos = s.lastFlushPos then
-      .ok ({ headerOnly with oracleBad := s.oracleBad || !good || !ans.emit || decide (ans.bits.length ≠ predicted.length) }, true, req)
+      .ok ({ headerOnly with oracleBad := (s.oracleBad || !good || !ans.emit || !exact) }, true)
     else
       if wFull.length / 8 + 2 > s.storageSize then .panic else
-      let (lb, lbb) := carryOf wFull
-      .ok ({ s with lastBytes := lb, lastBytesBits := lbb, lastFlushPos := s.inputPos, lastProcessedPos := s.inputPos,
-                    nextOut := .dyn 0, pending := wholeBytes wFull, oracleBad := s.oracleBad || !good || !ans.emit }, true, req)
+      .ok ({ s with lastBytes := (carryOf wFull).1, lastBytesBits := (carryOf wFull).2, lastFlushPos := s.inputPos, lastProcessedPos := s.inputPos, nextOut := .dyn 0, pending := wholeBytes wFull, oracleBad := (s.oracleBad || !good || !ans.emit) }, true)
+
+/-- the request `encode_data` issues in state `s` -/
+def reqOf (s : St) (site : Nat) (isLast forceFlush : Bool) : Req :=
+  { site := site, lo := s.lastProcessedPos, hi := s.inputPos, isLast := isLast, forceFlush := forceFlush }
+
+/-- `get_brotli_storage(size)`: the staging buffer only grows -/
+def growStorage (s : St) (want : Nat) : St :=
+  if s.storageSize < want then { s with storageSize := want } else s
+
+/-- bookkeeping at the top of `encode_data` once it is past its two `return false` -/
+def encStart (s : St) (isLast : Bool) : St :=
+  { s with nEnc := s.nEnc + 1, isLastBlockEmitted := (s.isLastBlockEmitted || isLast) }
+
+/-- `encode_data` returning `false` (`is_last` has already been latched in the second case) -/
+def encFail (s : St) (ans : Ans) (latch : Bool) : St :=
+  { s with nEnc := s.nEnc + 1, isLastBlockEmitted := (s.isLastBlockEmitted || latch), oracleBad := (s.oracleBad || ans.result) }
+
+/-- size asked of `get_brotli_storage` -/
+def wantStorage (s : St) : Nat :=
+  (2 * max (s.unprocessed % two32) (wsub64 s.inputPos s.lastFlushPos) + 527) % two64
+
+/-- `encode_data(is_last, force_flush)` from call site `site`; returns the state, the
+function result, and the request it issued -/
+def encodeData (o : Oracle) (s : St) (site : Nat) (isLast forceFlush : Bool) : Out (St × Bool × Req) :=
+  if s.isLastBlockEmitted then .ok (encFail s (o s.nEnc (reqOf s site isLast forceFlush)) false, false, reqOf s site isLast forceFlush)
+  else if s.unprocessed > s.blockSize then .ok (encFail s (o s.nEnc (reqOf s site isLast forceFlush)) isLast, false, reqOf s site isLast forceFlush)
+  else if (growStorage (encStart s isLast) (wantStorage s)).storageSize < 2 then .panic
+  else
+    match encPrelude (encMagic (growStorage (encStart s isLast) (wantStorage s)) (bitsOf s.lastBytesBits s.lastBytes)).1
+            (encMagic (growStorage (encStart s isLast) (wantStorage s)) (bitsOf s.lastBytesBits s.lastBytes)).2.1
+            (encMagic (growStorage (encStart s isLast) (wantStorage s)) (bitsOf s.lastBytesBits s.lastBytes)).2.2
+            (s.unprocessed % two32) with
+    | .panic => .panic
+    | .fuel => .fuel
+    | .ok (s2, w, hdr) =>
+      match encPayload s2 (o s.nEnc (reqOf s site isLast forceFlush)) (bitsOf s.lastBytesBits s.lastBytes) w hdr isLast forceFlush with
+      | .panic => .panic
+      | .fuel => .fuel
+      | .ok (s3, res) => .ok (s3, res, reqOf s site isLast forceFlush)
 
 /-! ### output side -/
 
@@ -564,6 +585,21 @@ def processMetadata (o : Oracle) (fuel : Nat) (s : St) (io : Io) : Out (St × Io
 
 /-! ### the quality 0/1 one-shot-per-block path -/
 
+/-- `compress_stream_fast`: one block handed to `compress_fragment_*` — the bits `ans.bits`
+behind the carry, delivered in place (caller's buffer) or staged in `storage_` -/
+def fastEncode (s : St) (io : Io) (ans : Ans) (req : Req) (blockSize : Nat) (inplace isLast forceFlush : Bool) : St × Io :=
+  let w : Writer := bitsOf s.lastBytesBits s.lastBytes ++ ans.bits
+  let outBytes := wholeBytes w
+  let st := if isLast then SState.finished else if forceFlush then SState.flushRequested else s.streamState
+  let io1 : Io := { io with input := io.input.drop blockSize, availIn := io.availIn - blockSize, reqs := io.reqs ++ [req] }
+  if inplace then
+    ({ s with nEnc := s.nEnc + 1, oracleBad := (s.oracleBad || !ans.result), totalOut := (s.totalOut + outBytes.length) % two64,
+              lastBytes := (carryOf w).1, lastBytesBits := (carryOf w).2, streamState := st },
+     { io1 with availOut := io.availOut - outBytes.length, out := io.out ++ outBytes })
+  else
+    ({ s with nEnc := s.nEnc + 1, oracleBad := (s.oracleBad || !ans.result), nextOut := .dyn 0, pending := outBytes,
+              lastBytes := (carryOf w).1, lastBytesBits := (carryOf w).2, streamState := st }, io1)
+
 /-- one iteration of the `compress_stream_fast` loop (`true` = continue, `false` = break) -/
 def fastStep (o : Oracle) (op : Nat) (s : St) (io : Io) : Out (St × Io × Bool) :=
   match injectFlushOrPushOutput s io with
@@ -572,35 +608,21 @@ def fastStep (o : Oracle) (op : Nat) (s : St) (io : Io) : Out (St × Io × Bool)
   | .ok (s, io, true) => .ok (s, io, true)
   | .ok (s, io, false) =>
     if s.pending.length = 0 ∧ s.streamState = .processing ∧ (io.availIn ≠ 0 ∨ op ≠ 0) then
-      let limit := 2 ^ s.params.lgwin.toNat
-      let blockSize := min limit io.availIn
+      let blockSize := min (2 ^ s.params.lgwin.toNat) io.availIn
       let isLast := decide (io.availIn = blockSize ∧ op = 2)
       let forceFlush := decide (io.availIn = blockSize ∧ op = 1)
       let maxOut := (2 * blockSize + 503) % two64
       if forceFlush ∧ blockSize = 0 then .ok ({ s with streamState := .flushRequested }, io, true)
       else
         let inplace := decide (maxOut ≤ io.availOut)
-        let s := if !inplace ∧ s.storageSize < maxOut then { s with storageSize := maxOut } else s
-        let cap := if inplace then io.availOut else s.storageSize
-        if cap < 2 then .panic else
+        let s1 := if inplace then s else growStorage s maxOut
+        let cap := if inplace then io.availOut else s1.storageSize
         let req : Req := { site := 2, lo := blockSize, hi := s.inputPos, isLast := isLast, forceFlush := forceFlush }
         let ans := o s.nEnc req
-        let s := { s with nEnc := s.nEnc + 1, oracleBad := s.oracleBad || !ans.result }
-        let w : Writer := bitsOf s.lastBytesBits s.lastBytes ++ ans.bits
-        if blockSize > io.input.length then .panic else
-        if w.length / 8 + 2 > cap then .panic else       -- `storage[1 + (storage_ix >> 3)]`
-        let outBytes := wholeBytes w
-        let (lb, lbb) := carryOf w
-        let io := { io with input := io.input.drop blockSize, availIn := io.availIn - blockSize, reqs := io.reqs ++ [req] }
-        let (s, io) :=
-          if inplace then
-            ({ s with totalOut := (s.totalOut + outBytes.length) % two64 },
-             { io with availOut := io.availOut - outBytes.length, out := io.out ++ outBytes })
-          else ({ s with nextOut := .dyn 0, pending := outBytes }, io)
-        let s := { s with lastBytes := lb, lastBytesBits := lbb }
-        let s := if forceFlush then { s with streamState := .flushRequested } else s
-        let s := if isLast then { s with streamState := .finished } else s
-        .ok (s, io, true)
+        if cap < 2 then .panic
+        else if blockSize > io.input.length then .panic
+        else if (s.lastBytesBits + ans.bits.length) / 8 + 2 > cap then .panic       -- `storage[1 + (storage_ix >> 3)]`
+        else .ok ((fastEncode s1 io ans req blockSize inplace isLast forceFlush).1, (fastEncode s1 io ans req blockSize inplace isLast forceFlush).2, true)
     else .ok (s, io, false)
 
 def fastLoop (o : Oracle) (op : Nat) : Nat → St → Io → Out (St × Io)
@@ -621,6 +643,11 @@ def compressStreamFast (o : Oracle) (fuel op : Nat) (s : St) (io : Io) : Out (St
   | .fuel => .fuel
 
 /-! ### the main loop -/
+
+/-- `if force_flush { FLUSH_REQUESTED } if is_last { FINISHED }` after a successful `encode_data` -/
+def markAfterEncode (s : St) (isLast forceFlush : Bool) : St :=
+  if isLast then { s with streamState := .finished }
+  else if forceFlush then { s with streamState := .flushRequested } else s
 
 /-- one iteration of the `compress_stream` loop -/
 def slowStep (o : Oracle) (op : Nat) (s : St) (io : Io) : Out (St × Io × Ctl) :=
@@ -647,10 +674,7 @@ def slowStep (o : Oracle) (op : Nat) (s : St) (io : Io) : Out (St × Io × Ctl) 
       | .fuel => .fuel
       | .ok (s, res, req) =>
         let io := { io with reqs := io.reqs ++ [req] }
-        if !res then .ok (s, io, .fail) else
-        let s := if forceFlush then { s with streamState := .flushRequested } else s
-        let s := if isLast then { s with streamState := .finished } else s
-        .ok (s, io, .cont)
+        if !res then .ok (s, io, .fail) else .ok (markAfterEncode s isLast forceFlush, io, .cont)
     else .ok (s, io, .brk)
 
 def slowLoop (o : Oracle) (op : Nat) : Nat → St → Io → Out (St × Io × Bool)
